@@ -160,6 +160,12 @@ int main(int argc, char **argv) {
                 "run_callbacks");
       chai->add(fun([&kept_callbacks]() { kept_callbacks.clear(); }), "release_callbacks");
       chai->add(fun([](const std::function<int(int)> &cb, int v) { return cb(v); }), "call_with");
+      // the C++ function keeps using its (possibly converted) argument after a script callback has run
+      chai->add(fun([](const Tracked &t, const std::function<int()> &cb) {
+                  int a = cb();
+                  return a + t.touch();
+                }),
+                "use_after_callback");
       chai->add(fun([]() {}), "settle");
       chai->add(fun([&reg](int tag) {
                   long n = reg.live_with_tag(tag);
